@@ -10,6 +10,7 @@ from typing import Any, List, Dict, Callable
 
 
 ZERO_PARAMS: List[str] = ['args', 'kwargs']
+RESERVED_KEYS = frozenset(['type', 'class', 'callable'])
 
 
 def simple_serialization(class_: type) -> type:
@@ -52,7 +53,8 @@ def serialize_value(value: Any) -> Any:
         return CONVERTIBLE_TYPES[type(value)](value)
     elif hasattr(value, '__iter__'):
         if hasattr(value, 'items') and hasattr(value, 'keys'):
-            if all(isinstance(key, str) for key in value.keys()):
+            if (all(isinstance(key, str) for key in value.keys())
+                    and not RESERVED_KEYS.intersection(value.keys())):
                 return {
                     key: serialize_value(val)
                     for key, val in value.items()
@@ -212,7 +214,7 @@ CONVERTIBLE_TYPES: Dict[type, Callable] = {
     Decimal: decimal_to_json,
 }
 
-SEQUENCE_TYPES: List[type] = [frozenset, tuple]
+SEQUENCE_TYPES: List[type] = [frozenset, tuple, set]
 
 for seqtype in SEQUENCE_TYPES:
     CONVERTIBLE_TYPES[seqtype] = sequence_to_json_factory(seqtype)
